@@ -78,7 +78,8 @@ func runOne(t *testing.T, sc *Scenario, tape *core.Tape, tier string) (res Resul
 		func() {
 			defer func() {
 				if r := recover(); r != nil {
-					sim.Violate("harness-panic", nil, "scenario panicked on root goroutine: %v\n%s", r, debug.Stack())
+					// a panic of the scenario code itself is harness trouble, never a violation
+					sim.Aborted = fmt.Sprintf("scenario panicked on root goroutine: %v\n%s", r, debug.Stack())
 					res.PanicText = fmt.Sprint(r)
 				}
 			}()
@@ -249,6 +250,9 @@ func TestWorker(t *testing.T) {
 	if rp := os.Getenv("VERIF_REPLAY"); rp != "" {
 		replayMain(t, sc, rp)
 		return
+	}
+	if os.Getenv("VERIF_TRACE") == "1" {
+		core.TraceOut = os.Stdout
 	}
 	base := envU64("VERIF_SEED", 1)
 	from, to := envInt("VERIF_FROM", 0), envInt("VERIF_TO", 100)
